@@ -325,6 +325,30 @@ def reduced_scalars(w, seed, spec):
                 _check_structure(f'{desc} on {_describe(t)}', op, fails)
                 if len(fails) > 8:
                     break
+    # rectangular neighbours: the rebuilt scalar operator must sit on the structure of the end it is moved to
+    from furax._base.indices import IndexOperator
+    from furax._base.linear import PackOperator
+    s4 = S((4,), np.float32)
+    d4 = diagonal.DiagonalOperator(jnp.asarray([1., 2., 3., 4.], np.float32), in_structure=s4)
+    pack = PackOperator(jnp.asarray([True, False, True, False]), s4)
+    pick = IndexOperator(jnp.asarray([2, 0]), in_structure=s4)
+    rect = {'pack @ (2 * D)': lambda: pack @ (2 * d4), 'pack @ (2 * D) @ (3 * D)': lambda: pack @ (2 * d4) @ (3 * d4),
+            '(2 * D) @ pack.T': lambda: (2 * d4) @ pack.T, 'pick @ (D / 2) @ pick.T': lambda: pick @ (d4 / 2) @ pick.T,
+            'pack @ (-D)': lambda: pack @ (-d4), 'D @ pack.T @ (2 * (pack @ D))': lambda: d4 @ pack.T @ (2 * (pack @ d4))}
+    for desc, make in rect.items():
+        try:
+            op = make()
+        except Exception as e:      # noqa: BLE001
+            fails.append(f'{desc}: cannot be built: {type(e).__name__} [{_mode()}]')
+            continue
+        _check_structure(desc, op, fails)
+        try:
+            red = op.reduce()
+            if _same(red.out_structure(), op.out_structure()) or _same(red.in_structure(), op.in_structure()):
+                fails.append(f'{desc}: the reduced operator declares other structures than the original [{_mode()}]')
+            np.asarray(red.as_matrix())
+        except Exception as e:      # noqa: BLE001
+            fails.append(f'{desc}: reduce() / as_matrix() of the reduced operator raises {type(e).__name__}: {str(e)[:80]} [{_mode()}]')
     fails += _other_mode('reduced_scalars', seed, spec)
     return fails[:10]
 
